@@ -20,7 +20,7 @@ func init() {
 		Explanation: "Decided: (R1) the system status is read and written only under its mutex; (R2) no call made while a mutex field is held reaches an acquisition of the same field along synchronous call paths " +
 			"(not crossing a Mailbox.Enqueue dispatch) and the module's lock-order graph is acyclic; (R3) Start/Stop move the status only ready→started→stopped, the read that decides a transition and its store lie in one critical section (no lock operation between them), every other state returns the documented error and the caller returns it before any effect; " +
 			"(R4) every blocking wait synchronously reachable from Stop sits in a select with a timer case; (R5) the stopping path poison-kills the root and cancels the system context, Start spawns one goroutine that waits for context cancellation and calls the stop routine; " +
-			"(R6) the guard closes the stop signal only when it handles the OnKilled that names itself. (R7) the remote send closure aborts once the system context is cancelled, so a send in its retry loop does not hold up Stop. NOT decided: that actors terminate within the timeout, goroutine quiescence after Stop at run time.",
+			"(R6) the guard closes the stop signal only when it handles the OnKilled that names itself. (R7) the remote send closure aborts once the system context is cancelled, so a send in its retry loop does not hold up Stop. (R8) the work of Stop is serialised with the start-up: a lifecycle mutex is taken by Start in the same critical section of the status lock in which the status is set, held across the Run of the start-up chain and released on every path after it, and the stop routine kills the root and cancels the context only under that mutex — a Stop that passes its status check while Start is still running waits and then stops everything Start created. NOT decided: that actors terminate within the timeout, goroutine quiescence after Stop at run time.",
 		Assumptions: []string{"locks are identified by struct field (instance-insensitive)", "third-party code (go-quartz) does not block Stop: treated by summary"},
 		Rules: []Rule{
 			{ID: "C07.R1", Min: 4, Desc: "status only under statusLock", Fn: c07StatusLock},
@@ -29,6 +29,7 @@ func init() {
 			{ID: "C07.R4", Min: 2, Desc: "bounded waits on the stop path", Fn: c07BoundedWaits},
 			{ID: "C07.R5", Min: 5, Desc: "shutdown wiring: poison kill of root, cancel, guardian goroutine", Fn: c07Wiring},
 			{ID: "C07.R7", Min: 1, Desc: "a remote send in its retry loop aborts once the system context is cancelled, so Stop is not held up by an unreachable peer (part of C14.R4)", Fn: c14StopAborts},
+			{ID: "C07.R8", Min: 3, Desc: "the work of Stop is serialised with the start-up: one lock taken with the status flip in Start, held across the start-up chain, taken by stop before it looks at what Start creates", Fn: c07StartStopSerialised},
 			{ID: "C07.R6", Min: 1, Desc: "guard signal closed only for the root's own OnKilled", Fn: c07GuardSignal},
 		},
 	})
@@ -931,4 +932,155 @@ func (p *Program) isRemoteMailboxFactory(fn *ssa.Function) bool {
 	}
 	_, isPtr := res.At(0).Type().(*types.Pointer)
 	return isPtr && fn.Signature.Params().Len() >= 1 && namedOf(fn.Signature.Recv().Type()) != namedOf(res.At(0).Type())
+}
+
+
+// c07StartStopSerialised: Start flips the status before it has created the root actor, so a concurrent Stop passes its status
+// check while the start-up chain is still running. Unless the *work* of the two is serialised, Stop finds nothing to stop,
+// returns success, and Start goes on creating actors (F35). Decided structurally: there is a mutex L of the system (not the
+// status lock) such that (1) in Start, L.Lock() lies in the critical section of the status lock in which the status is set —
+// no window between the flip and the acquisition; (2) the start-up chain runs with L held: its Run is dominated by that Lock
+// and no L.Unlock() lies on a path between them, and every path from Run to a return releases L; (3) in the stop routine the
+// kill of the root, the cancellation and the read of the root context are all dominated by L.Lock().
+func c07StartStopSerialised(p *Program, r *Report) {
+	s := c07Sys(p, r)
+	if s == nil {
+		return
+	}
+	isMutexOp := func(in ssa.Instruction, name string) *types.Var {
+		c := callOf(in)
+		if c == nil || c.StaticCallee() == nil {
+			return nil
+		}
+		q := calleeQual(c)
+		if q != "(sync.Mutex)."+name && q != "(sync.RWMutex)."+name {
+			return nil
+		}
+		f, _ := fieldAddr(c.Args[0])
+		return f
+	}
+	sg := p.igxSkip(s.Start, map[*ssa.Function]bool{s.Stop: true, s.StopImpl: true}) // Start's own failure path calls Stop: not part of the start-up
+	tg := p.igx(s.StopImpl)
+	// candidate locks: mutex fields of the system locked in both routines, other than the status lock
+	cands := map[*types.Var]bool{}
+	for _, in := range sg.Nodes {
+		if f := isMutexOp(in, "Lock"); f != nil && f != s.StatusLock {
+			for _, in2 := range tg.Nodes {
+				if isMutexOp(in2, "Lock") == f {
+					cands[f] = true
+				}
+			}
+		}
+	}
+	if len(cands) == 0 {
+		r.Check(false, "Start and the stop routine share a lifecycle lock", s.Start.Pos(), "no mutex other than the status lock is taken by both Start and the stop routine: a Stop that passes its status check while the start-up chain is still running finds no root actor, stops nothing and reports success")
+		r.Check(false, "start-up chain runs under the lifecycle lock", s.Start.Pos(), "no lifecycle lock")
+		r.Check(false, "stop routine works under the lifecycle lock", s.StopImpl.Pos(), "no lifecycle lock")
+		return
+	}
+	var L *types.Var
+	for f := range cands {
+		if L == nil || f.Name() < L.Name() {
+			L = f
+		}
+	}
+	nodes := func(g *IG, name string, f *types.Var) map[int]bool {
+		return nodesWhere(g, func(in ssa.Instruction) bool { return isMutexOp(in, name) == f })
+	}
+	// (1) acquisition inside the status critical section, together with the flip
+	lockS := nodes(sg, "Lock", L)
+	statusLk := nodes(sg, "Lock", s.StatusLock)
+	statusUn := nodes(sg, "Unlock", s.StatusLock)
+	flips := nodesWhere(sg, func(in ssa.Instruction) bool {
+		if a := atomicCall(in); a != nil && a.Field == s.Status && (a.Op == "Store" || a.Op == "CAS" || a.Op == "Swap") {
+			return true
+		}
+		st, ok := in.(*ssa.Store)
+		if !ok {
+			return false
+		}
+		f, _ := fieldAddr(st.Addr)
+		return f == s.Status
+	})
+	ok1 := len(lockS) > 0 && len(flips) > 0
+	for l := range lockS {
+		if !sg.DominatedByNodes(l, statusLk) {
+			ok1 = false
+		}
+		// no explicit release of the status lock between the flip and the acquisition (a deferred release runs at return)
+		for f := range flips {
+			for u := range statusUn {
+				if _, isDefer := sg.Nodes[u].(*ssa.Defer); isDefer {
+					// released when the function that deferred it returns: the acquisition must happen inside that function
+					if sg.Nodes[l].Parent() != sg.Nodes[u].Parent() || sg.Nodes[f].Parent() != sg.Nodes[u].Parent() {
+						ok1 = false
+					}
+					continue
+				}
+				if sg.ReachAfter(f, nil, nil)[u] && sg.ReachAfter(u, nil, nil)[l] {
+					ok1 = false
+				}
+			}
+		}
+		flipBefore := false
+		for f := range flips {
+			if sg.DominatedByNodes(l, setOf(f)) || sg.DominatedByNodes(f, setOf(l)) {
+				flipBefore = true
+			}
+		}
+		if !flipBefore {
+			ok1 = false
+		}
+	}
+	r.Check(ok1, "Start takes the lifecycle lock together with the status flip", firstPos(sg, lockS), "Lock("+L.Name()+") lies in the same critical section of the status lock as the store of the started status: a Stop that passes its status check afterwards cannot get ahead of the start-up")
+	// (2) the chain runs with L held and L is released on every path afterwards
+	runs := map[int]bool{}
+	for _, cr := range p.chainRuns(s.Start) {
+		if i, in := sg.Idx[cr.Run]; in {
+			runs[i] = true
+		}
+	}
+	unlockS := nodes(sg, "Unlock", L)
+	ok2 := len(runs) > 0 && len(lockS) > 0
+	for rn := range runs {
+		if !sg.DominatedByNodes(rn, lockS) {
+			ok2 = false
+		}
+		for l := range lockS {
+			for u := range unlockS {
+				if sg.ReachAfter(l, nil, nil)[u] && sg.ReachAfter(u, nil, nil)[rn] {
+					ok2 = false
+				}
+			}
+		}
+		if anyIn(sg.ReachAfter(rn, unlockS, nil), sg.Exits) {
+			ok2 = false
+		}
+	}
+	r.Check(ok2, "start-up chain runs under the lifecycle lock", firstPos(sg, runs), "the Run of the start-up chain is dominated by Lock("+L.Name()+") with no release in between, and every path from it to a return releases the lock")
+	// (3) the stop routine's work
+	lockT := nodes(tg, "Lock", L)
+	lc := p.lifecycle()
+	work := nodesWhere(tg, func(in ssa.Instruction) bool {
+		c := callOf(in)
+		if c == nil {
+			return false
+		}
+		if y := c.StaticCallee(); y != nil && y.Name() == "Kill" && lc != nil && y.Signature.Recv() != nil && namedOf(y.Signature.Recv().Type()) == lc.Ctx {
+			return true
+		}
+		if y := c.StaticCallee(); y == nil && !c.IsInvoke() {
+			if f, _ := fieldLoad(strip(c.Value)); f != nil && strings.Contains(typeName(f.Type()), "CancelFunc") {
+				return true
+			}
+		}
+		return false
+	})
+	ok3 := len(lockT) > 0 && len(work) > 0
+	for w := range work {
+		if !tg.DominatedByNodes(w, lockT) {
+			ok3 = false
+		}
+	}
+	r.Check(ok3, "stop routine works under the lifecycle lock", firstPos(tg, work), "the kill of the root actor and the cancellation of the system context are dominated by Lock("+L.Name()+"): they wait for a start-up in progress and then see everything it created")
 }
